@@ -5,7 +5,7 @@ import json, os, shutil, subprocess, sys
 info = json.load(open(sys.argv[1]))
 for key, (caught, needs, hist) in info.items():
     wt, seed = key.split(":")
-    pid = wt.rstrip("bcdefghi")
+    pid = wt.rstrip("bcdefghij")
     n = 1
     while os.path.exists("/verif/seeded/%s-%d" % (pid, n)):
         n += 1
